@@ -21,7 +21,7 @@ pub use {
   std::{
     borrow::Cow,
     cmp,
-    collections::{BTreeMap, BTreeSet, HashSet},
+    collections::{BTreeMap, BTreeSet, HashMap, HashSet},
     fmt::{self, Display, Formatter},
     io::{self, Cursor, Read},
     mem,
@@ -57,6 +57,18 @@ impl From<std::num::ParseIntError> for Error {
     {
       Error { msg: Cow::Owned(_e.to_string()) }
     }
+  }
+}
+
+impl From<ordinals::varint::Error> for Error {
+  fn from(_e: ordinals::varint::Error) -> Self {
+    Error::msg_static("varint error")
+  }
+}
+
+impl From<std::num::TryFromIntError> for Error {
+  fn from(_e: std::num::TryFromIntError) -> Self {
+    Error::msg_static("integer conversion error")
   }
 }
 
@@ -159,7 +171,10 @@ pub use self::{
   runes::MintError,
 };
 
+pub(crate) use self::into_usize::IntoUsize;
+
 // ---- real files (copied from /repo/src at run time) ----
+pub mod into_usize;
 pub mod decimal;
 pub mod runes;
 // ---- shim modules with real children ----
